@@ -189,6 +189,7 @@ def get_atom_lines_from_pdb(
         if tag == 'MODEL ':
             model = int(line[6:])
             nterm_residue = 'next_residue'
+            old_residue = None
         if tag.rstrip() == 'TER':
             nterm_residue = 'next_residue'
         if tag in tags:
